@@ -321,17 +321,18 @@ Fixpoint walk_arith (fuel : nat) (e : aexpr) : option (aexpr * bool) :=
       end
   end.
 
-(* the holder nodes: ArithmExp / ArithmCmd / Slice.Offset / Slice.Length (inline = true)
-   and Assign.Index / ParamExp.Index (inline = false, parens only) *)
-Definition simplify_arith_fuel (fuel : nat) (inline : bool) (e : aexpr) : option (aexpr * bool) :=
-  let (x1, m1) := remove_parens_arithm e in
+(* the holder nodes: ArithmExp / ArithmCmd / Slice.Offset / Slice.Length (parens = inline = true),
+   Assign.Index / ParamExp.Index (parens only), and expressions that no case of visit
+   handles at their top: CStyleLoop.Init/Cond/Post, LetClause.Exprs (parens = inline = false) *)
+Definition simplify_arith_fuel (fuel : nat) (parens inline : bool) (e : aexpr) : option (aexpr * bool) :=
+  let (x1, m1) := if parens then remove_parens_arithm e else (e, false) in
   let (x2, m2) := if inline then inline_simple_params x1 else (x1, false) in
   match walk_arith fuel x2 with
   | Some (x3, m3) => Some (x3, m1 || m2 || m3)
   | None => None
   end.
-Definition simplify_arith (inline : bool) (e : aexpr) : option (aexpr * bool) :=
-  simplify_arith_fuel (asize e) inline e.
+Definition simplify_arith (parens inline : bool) (e : aexpr) : option (aexpr * bool) :=
+  simplify_arith_fuel (asize e) parens inline e.
 
 (* ---- Spec: evaluation over an integer environment ---- *)
 Definition aenv := list (str * Z).
@@ -680,3 +681,63 @@ Section CmdSem.
         (s, o, z)
     end.
 End CmdSem.
+
+(* ===================================================================== *)
+(* Decidable equality (used by the in-kernel comparison with the Go trees) *)
+(* ===================================================================== *)
+
+Definition dpart_eqb (a b : dpart) : bool :=
+  match a, b with
+  | DLit x, DLit y => str_eqb x y
+  | DParam s1 f1 n1, DParam s2 f2 n2 => Bool.eqb s1 s2 && (f1 =? f2) && str_eqb n1 n2
+  | _, _ => false
+  end.
+Fixpoint list_eqb {A} (eqb : A -> A -> bool) (a b : list A) : bool :=
+  match a, b with
+  | [], [] => true
+  | x :: a', y :: b' => eqb x y && list_eqb eqb a' b'
+  | _, _ => false
+  end.
+Definition wpart_eqb (a b : wpart) : bool :=
+  match a, b with
+  | WLit x, WLit y => str_eqb x y
+  | WSgl d1 x, WSgl d2 y => Bool.eqb d1 d2 && str_eqb x y
+  | WDbl d1 x, WDbl d2 y => Bool.eqb d1 d2 && list_eqb dpart_eqb x y
+  | WParam s1 f1 n1, WParam s2 f2 n2 => Bool.eqb s1 s2 && (f1 =? f2) && str_eqb n1 n2
+  | _, _ => false
+  end.
+Definition word_eqb : word -> word -> bool := list_eqb wpart_eqb.
+Fixpoint aexpr_eqb (a b : aexpr) : bool :=
+  match a, b with
+  | AWord x, AWord y => word_eqb x y
+  | AUn o1 p1 x, AUn o2 p2 y => (o1 =? o2) && Bool.eqb p1 p2 && aexpr_eqb x y
+  | ABin o1 x1 y1, ABin o2 x2 y2 => (o1 =? o2) && aexpr_eqb x1 x2 && aexpr_eqb y1 y2
+  | AParen x, AParen y => aexpr_eqb x y
+  | _, _ => false
+  end.
+Fixpoint texpr_eqb (a b : texpr) : bool :=
+  match a, b with
+  | TWord x, TWord y => word_eqb x y
+  | TUn o1 x, TUn o2 y => (o1 =? o2) && texpr_eqb x y
+  | TBin o1 x1 y1, TBin o2 x2 y2 => (o1 =? o2) && texpr_eqb x1 x2 && texpr_eqb y1 y2
+  | TParen x, TParen y => texpr_eqb x y
+  | _, _ => false
+  end.
+Fixpoint cmd_eqb (a b : cmd) : bool :=
+  match a, b with
+  | COther i, COther j => i =? j
+  | CSub x, CSub y =>
+      (fix go (l1 l2 : list stmt) : bool :=
+         match l1, l2 with
+         | [], [] => true
+         | St p1 c1 :: r1, St p2 c2 :: r2 => Bool.eqb p1 p2 && cmd_eqb c1 c2 && go r1 r2
+         | _, _ => false
+         end) x y
+  | _, _ => false
+  end.
+Definition opt_eqb {A} (eqb : A -> A -> bool) (a b : option (A * bool)) : bool :=
+  match a, b with
+  | Some (x, m), Some (y, n) => eqb x y && Bool.eqb m n
+  | None, None => true
+  | _, _ => false
+  end.
